@@ -39,7 +39,9 @@ THeap == /\ l <= Len(Trace) /\ Ev.ev = "heap" /\ ~rejected /\ FirstBad(Ev) = 0
 TReject == /\ l <= Len(Trace) /\ Ev.ev = "heap" /\ ~rejected /\ FirstBad(Ev) # 0
            /\ PrintT(<<"REJECT", tid, l, FirstBad(Ev)>>)
            /\ rejected' = TRUE /\ l' = l + 1 /\ UNCHANGED tid
+\* events judged by SchemaProgTrace in the same file
+TForeign == /\ l <= Len(Trace) /\ Ev.ev \in {"program", "observed"} /\ ~rejected /\ l' = l + 1 /\ UNCHANGED <<tid, rejected>>
 TSkip == /\ l <= Len(Trace) /\ Ev.ev # "reset" /\ rejected /\ l' = l + 1 /\ UNCHANGED <<tid, rejected>>
-TNext == Reset \/ THeap \/ TReject \/ TSkip
+TNext == Reset \/ THeap \/ TReject \/ TForeign \/ TSkip
 Consumed == TLCGet("stats").diameter - 1 = Len(Trace)
 ====
